@@ -62,6 +62,8 @@ func main() {
 		runKstale(r, n)
 	case "kalias":
 		runKalias(r, n)
+	case "kxconn":
+		runKxconn(r, n)
 	case "kprim":
 		runKprim(r, n)
 	case "kmapbig":
